@@ -276,8 +276,8 @@ theorem C10_partial (side : Side) (limit memLimit : Nat) (ws : List Wr) :
 theorem C10_reject_iff (s : St) (d : Bytes) (hi : C10_Inv s) (hr : s.reject = true)
     (hnf : s.limit ≠ s.bb.length) :
     (s.bb.length + d.length ≥ s.limit →
-        (writeSlice s d).2 = ⟨some (rejectStatus s.side), 0, false⟩ ∧ accepted s (.slice d) = [] ∧
-        (writeSlice s d).1.dataErr = true ∧ (writeSlice s d).1.intr = some (rejectStatus s.side)) ∧
+        (writeSlice s d).2 = ⟨limitIntr s.intr s.side, 0, false⟩ ∧ accepted s (.slice d) = [] ∧
+        (writeSlice s d).1.dataErr = true ∧ (writeSlice s d).1.intr = limitIntr s.intr s.side) ∧
     (s.bb.length + d.length < s.limit →
         (writeSlice s d).2 = ⟨s.intr, d.length, false⟩ ∧ accepted s (.slice d) = d) := by
   have hf : (s.limit == s.bb.length) = false := by simpa using hnf
